@@ -37,7 +37,7 @@ prepare() {
   cp "$VERIF/sim/hooks/zz_verif_sim.go.tmpl" "$S/jsonapi/zz_verif_sim.go"
   "$VERIF/.bin/instrument" -dir "$S/jsonapi" > "$S/instrument.log" 2>&1 || { cat "$S/instrument.log" >&2; die2 "instrumentation of the working tree failed"; }
   mkdir -p "$S/sim"
-  (cd "$VERIF/sim" && tar cf - --exclude="*.tmpl" core world model wire engines cmd 2>/dev/null) | (cd "$S/sim" && tar xf -)
+  (cd "$VERIF/sim" && tar cf - --exclude="*.tmpl" core world model wire sched engines cmd 2>/dev/null) | (cd "$S/sim" && tar xf -)
   cp "$VERIF/sim/go.mod.tmpl" "$S/sim/go.mod"
   local flags=""
   [ -n "$race" ] && flags="-race"
